@@ -33,7 +33,7 @@
 (*          limit, offset]      where/having = [k|->"none"] if absent        *)
 (*         [k|->"union", l, r, all, limit, offset]                           *)
 (***************************************************************************)
-EXTENDS Values
+EXTENDS Builtins
 
 None == [k |-> "none"]
 IsNone(e) == e.k = "none"
@@ -243,6 +243,7 @@ Ev(e, row, data) ==
                 ELSE IF e.p = <<>> THEN Aggregate(e.f, <<>>, Len(members.e))
                 ELSE LET col == PathGet(members, e.p)
                      IN  IF ~IsArr(col) THEN Err ELSE Aggregate(e.f, col.e, Len(col.e))
+      [] e.k = "fn" -> Builtin(e.f, EvList(e.args, row, data), Null)
       [] e.k = "sub" -> RunQ(e.q, Marked(row, data))
       [] e.k = "exists" ->
             \* the subquery's source rows, each extended with the outer row's columns
